@@ -355,3 +355,19 @@ _ROUND2 = {
 }
 for _pid, _txt in _ROUND2.items():
     PROPS[_pid]["rule"] += " Also: " + _txt + "."
+
+
+# Which casters of pkg/cast (names as the translator reports them: ToXxx, "To" for the dispatcher,
+# "binary_ops" for the xxxToBytes / xxxFromBytes functions) the theorems of a property are about: a source
+# shape the translator cannot read in one of THESE is a broken obligation of that property ("*": all).
+_INT = ["ToInt", "ToInt64", "ToInt32", "ToInt16", "ToInt8", "ToUint", "ToUint64", "ToUint32", "ToUint16", "ToUint8"]
+_CASTERS = {
+    "C04": ["ToString", "ToNumber", "ToBool", "ToBinary", "ToDate", "ToTime", "ToTimestamp", "ToInt64", "binary_ops"],
+    "C05": "*", "C10": "*", "C13": "*", "C17": "*",
+    "C09": _INT + ["To"],
+    "C11": ["ToBinary", "binary_ops", "To"],
+    "C12": _INT + ["ToString", "ToNumber", "ToBool", "ToFloat64", "ToFloat32", "To"],
+    "C14": ["ToTime", "ToDate", "ToTimestamp", "ToString", "ToInt64", "To"],
+}
+for _pid, _c in _CASTERS.items():
+    PROPS[_pid]["casters"] = _c
